@@ -62,3 +62,17 @@ Theorem C14_parse_render : forall e rest, starts_add rest = false -> starts_mul 
   exists n, forall f, (n <= f)%nat -> match_expr f 0 (render e ++ rest) = POk e rest.
 Proof. exact parse_render. Qed.
 Print Assumptions C14_parse_render.
+
+(* ---- no internal error from the state-changing commands (on the session model) ------------------------ *)
+From Hera.Spec Require Import Wf.
+From Hera.Model Require Import Run Debugger Session.
+From Hera.Proofs Require Import C02_Run C11_Debug C14_Total.
+
+(* from a well-formed machine, every stepping / breakpoint / flag / goto / restart / assignment /
+   undo / read-only command returns a session, or runs out of the model's fuel (the debugged
+   program's own non-termination); `execute` is not covered here *)
+Theorem C14_session_commands_do_not_raise : forall fuel code data st c s,
+  code_ok (rops code) -> only_last_branches code -> wf_vm (d_vm (s_cur s)) -> cmd_ok data s c ->
+  fine (sess_step fuel code data st c s).
+Proof. exact sess_step_fine. Qed.
+Print Assumptions C14_session_commands_do_not_raise.
